@@ -22,7 +22,9 @@ status = "\n".join(rows)
 
 # seeds: newest result per seed id
 res = {}
-for f in sorted(glob.glob(f"{V}/work/seed_results*.json"), key=os.path.getmtime):
+for f in [f"{V}/selftest/results/seed_results.json"] + sorted(glob.glob(f"{V}/work/seed_results*.json"), key=os.path.getmtime):
+    if not os.path.exists(f):
+        continue
     for sid, rs in json.load(open(f)):
         res[sid] = rs
 srows = ["| seeded change | what it breaks | check | result | first failing obligation(s) |", "|---|---|---|---|---|"]
